@@ -1,5 +1,5 @@
 CONSTANTS
-  Tier = 2
+  Tier = 4
   MaxStr = 0
   Export = TRUE
   Need = {"eq", "lt"}
